@@ -653,6 +653,22 @@ def upgrade_exit_state(A, fl, rule):
                 behaviour='polling answers only NOOP from then on: everything queued is '
                           'undeliverable until the heartbeat times the session out')
         lastu = v.last_write('self.upgraded')
+        # no window in which a session whose UPGRADE arrived is neither upgrading nor upgraded:
+        # handle_get_request would let a poll drain the queue the WebSocket writer owns
+        ut = [i for i, val in v.writes('self.upgraded') if val == 'True']
+        if ut:
+            early = [i for i, val in w if val == 'False' and i < ut[0] and
+                     any(j < i and val2 == 'True' for j, val2 in w)]
+            if fl['name'] == 'asyncio':
+                early = [i for i in early if any(e.kind == 'call' and 'await' in
+                                                 ast.unparse(e.expr) for e in v.ev[i:ut[0]])]
+            A.check(not early, rule + '.switch-order', '%s: upgraded is set before upgrading is '
+                    'cleared at the end of the handshake' % fl['name'],
+                    A.site(up, v.node(ut[0])), key='%s-switch-order' % fl['name'],
+                    detail=v.describe(70),
+                    behaviour='a poll arriving between the two writes is served from the queue '
+                              '(neither flag is set): packets are split between the polling '
+                              'response and the WebSocket writer')
         # failure is harmless: while the handshake is in progress nothing may leave the region
         # as a protocol error, because handle_request ends the *polling* session for those
         if p.outcome == 'raise' and p.cls and \
@@ -1353,3 +1369,86 @@ def who_may_rules(A, fl, rule, parts=('close', 'events', 'flags', 'table')):
         A.floor(rule, '%s close() call sites' % name, n_close, 6)
     if 'events' in parts:
         A.floor(rule, '%s _trigger_event call sites' % name, n_ev, 3)
+
+
+def poll_cancel_rule(A, fl, rule):
+    """asyncio: a pending poll whose request task is cancelled (the client went away and the
+    web server cancels the handler) ends like a poll that timed out: with QueueEmpty, so that
+    handle_get_request closes the session.  The handler around the blocking read catches both
+    asyncio.TimeoutError and asyncio.CancelledError."""
+    if fl['name'] != 'asyncio':
+        return
+    fi = A.func(fl['socket'] + '.poll')
+    sock = A.model.cls(fl['socket'])
+    ps = [p for p in A.paths(A.enum(loop_bound=1), fi, sock) if p.outcome != 'cut']
+    caught = set()
+    n = 0
+    for p in ps:
+        v = PV(p)
+        w = [i for i, _ in v.calls('asyncio.wait_for(___)')]
+        if not w:
+            continue
+        hs = [i for i, e in enumerate(v.ev) if e.kind == 'handler' and i > w[0]]
+        if not hs or any(e.kind == 'call' and e.depth == 0 for e in v.ev[w[0] + 1:hs[0]]):
+            continue
+        n += 1
+        if p.outcome == 'raise' and 'QueueEmpty' in str(p.cls or ''):
+            for nm in str(v.ev[hs[0]].cls).split('|'):
+                caught.add(nm.split('.')[-1])
+    A.floor(rule, 'asyncio poll paths through the handler of the blocking read', n, 1)
+    for want in ('TimeoutError', 'CancelledError'):
+        A.check(want in caught or 'BaseException' in caught or '*' in caught,
+                rule + '.poll-cancel', 'asyncio poll(): %s of the blocking read becomes QueueEmpty'
+                % want, A.site(fi), key='asyncio-poll-catches:%s' % want, detail=sorted(caught),
+                behaviour='a poll that %s leaves the session in the table: the dead client '
+                          'stays until a ping timeout' % ('is cancelled (client went away)'
+                                                          if want == 'CancelledError'
+                                                          else 'timed out'))
+
+
+def ping_callers_rule(A, fl, rule):
+    """WHO-MAY arm the heartbeat: schedule_ping() is called when the session is opened
+    (_handle_connect) and when a PONG is received (receive), nowhere else.  A second timer
+    started elsewhere emits a PING that no PONG asked for and, by clearing last_ping, disarms
+    a deadline that is running."""
+    name = fl['name']
+    mods = {fl['server'].split('.')[0], fl['socket'].split('.')[0], 'base_server', 'base_socket'}
+    funcs = [f for f in A.model.all_funcs() if f.module.name in mods]
+    anchors = A.anchors()
+    allowed = {fl['server'] + '._handle_connect', fl['socket'] + '.receive'}
+
+    def callers_of(attr):
+        out = []
+        for f in funcs:
+            for n in ast.walk(f.node):
+                if isinstance(n, ast.Call) and isinstance(n.func, ast.Attribute) and \
+                        n.func.attr == attr and f.name != attr:
+                    out.append((f, n))
+                elif isinstance(n, ast.Attribute) and n.attr == attr and \
+                        isinstance(n.ctx, ast.Load) and f.name != attr and \
+                        attr != 'schedule_ping' and not any(
+                            isinstance(c, ast.Call) and c.func is n for c in ast.walk(f.node)):
+                    out.append((f, n))
+        return out
+    n_sites = 0
+    seen = set()
+    work = [('schedule_ping', None)]
+    while work:
+        attr, via = work.pop()
+        for f, node in callers_of(attr):
+            if (f.qualname, attr) in seen:
+                continue
+            seen.add((f.qualname, attr))
+            if f.qualname in anchors or f.name.startswith('__'):
+                n_sites += 1
+                A.check(f.qualname in allowed, rule + '.arm-sites',
+                        '%s: the heartbeat timer is started only on OPEN and on PONG' % name,
+                        A.site(f, node), key='%s-ping-armed-by:%s' % (name, f.name),
+                        detail=['%s calls %s()%s' % (f.qualname, attr,
+                                                     ' (which starts the timer)' if via else '')],
+                        behaviour='a PING is emitted that is not ping_interval after the OPEN or '
+                                  'a PONG, and the second timer clears last_ping: the deadline '
+                                  'of an outstanding PING is disarmed')
+            else:
+                work.append((f.name, attr))
+    A.floor(rule, '%s call sites of schedule_ping' % name, n_sites, 2)
